@@ -133,6 +133,11 @@ def run(res):
   if nonzero < 10:
     raise tlc.MachineryError('vacuous: only %d replayed cases have a non-empty design space' % nonzero)
   res.extra['replayed_nonempty'] = nonzero
+  # last sentence of the property: the count bounds the designs the exhaustive search evaluates. Decided on recorded
+  # hook events of real searches by MMStepTrace.tla (clauses EvaluatedWithinCount / CountIsGeneratedPairs).
+  from harness import mm
+  insts, _, _ = mm.run_search_clauses(res, 'C11', count=(600 if thorough else 90))
+  mm.run_step_validation(res, insts, 'C11')
   res.exhaustive = False
   res.rule = ('TLC: all class-count vectors with total <= %d x 6 treatment ranges x 6 control ranges x 5 tolerances, three '
               'definitions compared on each; replay: the residue class (hash %% %d = seed %% %d) of the instances with '
